@@ -697,6 +697,8 @@ impl<'de> Deserializer<'de> {
         let id = PrincipalBytes::read(&mut self.input)?;
         let len = self.read_len()?;
         let meth = self.borrow_bytes(len)?;
+        // a method name is text: check it here, the visitor may ignore the value
+        std::str::from_utf8(meth).map_err(Error::msg)?;
         self.add_cost(
             std::cmp::max(30, id.len as usize)
                 .saturating_add(len)
